@@ -7,7 +7,7 @@ from collections import Counter
 
 import asyncstdlib as A
 
-from ..loop import CTX, Driver, Suspend, BudgetExceeded, Cancel, run_finalizers
+from ..loop import CTX, Driver, Suspend, BudgetExceeded, Cancel, run_finalizers, drive
 from ..probes import Item, SrcState, Plan, make_source, VLock
 from ..sched import explore
 
@@ -35,6 +35,7 @@ RULE += (' Also: a child asking for an item the source has already handed out re
 RULE += (' Also: class-based sources that also offer (and refuse) the synchronous protocol.')
 RULE += (' Also: a source whose __aiter__ must not be called again once iteration has begun.')
 RULE += (' Also: sources handing out the same object several times in a row (every occurrence is an item for every child).')
+RULE += (' Also: a child tens of thousands of items behind its sibling still receives everything (no cap on a live backlog).')
 ASSUMPTIONS = ["without a lock only non-suspending sources are claimed (as the property states)",
                "class-based cancellation-safe source: an item is consumed only after the last suspension of __anext__",
                "consumers close their child when they stop (owner closes what it advanced)"]
@@ -47,6 +48,10 @@ RANDOM_RUNS = {"quick": 60, "thorough": 400}
 
 
 def cases(tier, seed, shard, nshards):
+    if shard == 0:
+        for lag in ((40000,) if tier == "quick" else (40000, 70000, 140000)):
+            for lock in (False, True):
+                yield {"mode": "biglag", "lag": lag, "lock": lock}
     rng = random.Random(f"C09-{seed}-{shard}")
     n = max(1, N_SCEN[tier] // nshards)
     for i in range(n):
@@ -248,7 +253,45 @@ def execute(case, choose, cancel_at=None):
     return viols, info
 
 
+def run_biglag(case, stats):
+    """One child runs far ahead (tens of thousands of items), the other then reads everything from the start: however
+    large the backlog of a live child has grown, nothing of it is dropped."""
+    CTX.reset()
+    lag = case["lag"]
+    st = SrcState(0, list(range(lag)), Plan(0), log=False)
+    src = make_source(st, "async_class")
+    lock = VLock("tee") if case["lock"] else None
+    a_, b_ = A.tee(src, 2, lock=lock) if lock is not None else A.tee(src, 2)
+    result = {}
+
+    async def main():
+        count = 0
+        async for _ in a_:
+            count += 1
+        result["leader"] = count
+        first, seen, ok = None, 0, True
+        async for item in b_:
+            if first is None:
+                first = item
+            if item != seen:
+                ok = False
+            seen += 1
+        result["follower"] = (first, seen, ok)
+
+    drive(main())
+    viols = []
+    if result.get("leader") != lag or result.get("follower") != (0 if lag else None, lag, True):
+        viols.append({"key": "tee/child-sequence",
+                      "msg": f"tee over {lag} items, one child {lag} items ahead (lock={case['lock']}): the leader received "
+                             f"{result.get('leader')} items, the follower (first item, count, in order) = {result.get('follower')}"})
+    stats["large_backlog_runs"] += 1
+    stats["largest_backlog"] = max(stats["largest_backlog"], lag)
+    return {"violations": viols, "evals": 1, "distinct": 1, "sample": dict(case)}
+
+
 def run_case(case, stats: Counter):
+    if case["mode"] == "biglag":
+        return run_biglag(case, stats)
     viols_out = {}
     traces = set()
     evals = 0
